@@ -195,6 +195,38 @@ def run_procs(jobs, res, timeout):
                 res.inconclusive.append("%s: unreadable stats: %s" % (name, ex))
 
 
+def minimize_replays(pid, cfg, binaries, res, outdir):
+    """World histories shrink poorly under rapid (every step is drawn from a state-dependent generator): each replay
+    file of a violation is minimized once more by delta debugging over its op list (TestMinimize; same observer must
+    still fail, open known findings are not accepted as the same failure). Best effort, bounded, never changes the verdict."""
+    mod = cfg.get("module", "harness")
+    binary = binaries.get(mod)
+    if binary is None or mod != "harness":
+        return
+    seen = set()
+    for prop, path, _ in res.violations:
+        if path in seen or not path.endswith(".json") or not os.path.abspath(path).startswith(os.path.abspath(outdir)) or not os.path.exists(path):
+            continue
+        seen.add(path)
+        env = env_base()
+        env["VERIF_REPLAY"] = path
+        env["VERIF_OUT"] = outdir
+        try:
+            p = subprocess.run([binary, "-test.run", "^TestMinimize$", "-test.v", "-test.timeout", "120s"], cwd=module_dir(mod), env=env,
+                               stdout=subprocess.PIPE, stderr=subprocess.STDOUT, text=True, timeout=150, preexec_fn=limit_memory)
+            m = re.search(r"MINIMIZED path=\S+ (ops \d+ -> \d+ \(\d+ replays\))", p.stdout)
+            if m:
+                res.notes.append("replay %s minimized: %s" % (os.path.basename(path), m.group(1)))
+                try:
+                    mv = json.load(open(path)).get("violation") or {}
+                    txt = "observer=%s :: %s" % (mv.get("observer"), mv.get("msg"))
+                    res.violations = [(a, b, txt[:600] + " [minimized: " + m.group(1) + "]") if b == path else (a, b, c) for a, b, c in res.violations]
+                except Exception:  # noqa
+                    pass
+        except Exception as ex:  # noqa
+            res.notes.append("minimization of %s skipped: %s" % (path, ex))
+
+
 def load_known():
     p = os.path.join(ROOT, "known_findings.json")
     if not os.path.exists(p):
@@ -362,6 +394,7 @@ def check(pid, tier):
                     "-rapid.nofailfile", "-rapid.shrinktime=%s" % r.get("shrinktime", "20s")]
             jobs.append((name, argv, env, module_dir(mod), r.get("checks", 100) if r.get("count_cases", True) else 0))
     run_procs(jobs, res, timeout + 60)
+    minimize_replays(pid, cfg, binaries, res, outdir)
     # native fuzz campaigns (thorough only), sequential, wall-clock capped; expiry = nothing found
     for r in runs:
         if r.get("kind") != "fuzz":
